@@ -6,14 +6,11 @@ package main
 // net/netip from the *parts* the generator assembled.
 
 import (
-	"context"
 	"fmt"
-	"net"
 	"net/http"
 	"net/netip"
 	"net/url"
 	"strings"
-	"sync"
 
 	req "github.com/imroc/req/v3"
 	"github.com/imroc/req/v3/verifharness/hk"
@@ -134,7 +131,7 @@ func runC11(r *hk.Run) {
 	r.Header = "From ReqV Require Import Model.C11Run."
 	r.CaseType = "c11_case"
 	r.CheckFn = "c11_check"
-	r.Rule = "authority pairs from a grammar (DNS names in mixed case +- trailing dot, IPv4, bracketed IPv6 +- zone; port absent/empty/digits), targets mostly derived from the origin by case/port/label mutation; policy evaluations on exported constructors; end-to-end chains through a real client. Non-trivial: the authority has a port, brackets, upper-case letters or >=3 labels (host cases); origin and target differ textually (policy cases); chain has >=2 hops (chains). Distinct by rendered input."
+	r.Rule = "authority pairs from a grammar (DNS names in mixed case +- trailing dot, IPv4, bracketed IPv6 +- zone; port absent/empty/digits), targets mostly derived from the origin by case/port/label mutation; policy evaluations on exported constructors; end-to-end chains through a real client (status 301/302/303/307/308, absolute and relative Location, GET and POST, hop counts directed at the configured limit); sequences of client operations (C / SetRedirectPolicy / Clone / request) with one observation per request; groups of chains in flight through one client under a harness-controlled order of CheckRedirect evaluations. Non-trivial: the authority has a port, brackets, upper-case letters or >=3 labels (host cases); origin and target differ textually (policy cases); chain has >=2 hops (chains); the sequence has a Clone, a SetRedirectPolicy after it and >=2 requests (client sequences); >=2 chains with >=1 hop each (concurrent groups). Distinct by rendered input."
 	rng := hk.NewRand(r.Seed)
 
 	// (a1) hostname / domain
@@ -253,8 +250,8 @@ func runC11(r *hk.Run) {
 			"p|"+coqPol+"|"+t.render()+"|"+strings.Join(viaStr, ","), t.render() != o.render())
 	}
 
-	// (b) end-to-end chains
-	c11Chains(r, rng, r.Scale(150, 3000))
+	// (b) end-to-end: single chains, client operation sequences, concurrent chains (chains.go)
+	c11EndToEnd(r, rng)
 }
 
 func urlHostname(hostport string) string {
@@ -277,260 +274,3 @@ func c11Shape(a authority) string {
 	return a.Kind + "-" + p
 }
 
-type c11Hit struct {
-	Host   string `json:"host"`
-	Auth   int    `json:"auth"`   // number of Authorization values received
-	Cookie int    `json:"cookie"` // number of Cookie values received
-}
-
-func c11Chains(r *hk.Run, rng *hk.Rand, n int) {
-	var mu sync.Mutex
-	hits := map[string][]c11Hit{}
-	scripts := map[string][]string{}
-	srv := &http.Server{Handler: http.HandlerFunc(func(w http.ResponseWriter, q *http.Request) {
-		id := q.Header.Get("X-Chain")
-		mu.Lock()
-		step := len(hits[id])
-		hits[id] = append(hits[id], c11Hit{Host: q.Host, Auth: len(q.Header.Values("Authorization")), Cookie: len(q.Header.Values("Cookie"))})
-		sc := scripts[id]
-		mu.Unlock()
-		if step < len(sc) {
-			w.Header().Set("Location", "http://"+sc[step]+"/next")
-			w.WriteHeader(302)
-			return
-		}
-		w.WriteHeader(200)
-	})}
-	ln, err := net.Listen("tcp", "127.0.0.1:0")
-	if err != nil {
-		r.Notes = append(r.Notes, "listen failed: "+err.Error())
-		return
-	}
-	go srv.Serve(ln)
-	defer srv.Close()
-	addr := ln.Addr().String()
-
-	for i := 0; i < n; i++ {
-		// no zones end-to-end (net/http drops the zone from the Host header)
-		var init authority
-		for {
-			init = genAuthority(rng)
-			if !strings.Contains(init.Host, "%") {
-				break
-			}
-		}
-		hops := rng.Range(0, 5)
-		var targets []string
-		var targetAuth []authority
-		var oraclePols []func(t authority, via []authority) bool
-		cur := init
-		for j := 0; j < hops; j++ {
-			var t authority
-			for {
-				if rng.Chance(60) {
-					t = mutateAuthority(rng, cur)
-				} else {
-					t = mutateAuthority(rng, init)
-				}
-				if !strings.Contains(t.Host, "%") {
-					break
-				}
-			}
-			targets = append(targets, t.render())
-			targetAuth = append(targetAuth, t)
-			cur = t
-		}
-		// policy set
-		var pols []req.RedirectPolicy
-		var coqPols []string
-		np := rng.Range(1, 3)
-		for j := 0; j < np; j++ {
-			switch rng.Intn(7) {
-			case 0:
-				lim := rng.Range(0, 5)
-				pols, coqPols = append(pols, req.MaxRedirectPolicy(lim)), append(coqPols, "PMax "+hk.CoqZ(int64(lim)))
-				oraclePols = append(oraclePols, func(t authority, via []authority) bool { return len(via) < lim })
-			case 1:
-				pols, coqPols = append(pols, req.SameHostRedirectPolicy()), append(coqPols, "PSameHost")
-				oraclePols = append(oraclePols, func(t authority, via []authority) bool { return oracleHostname(t) == oracleHostname(via[0]) })
-			case 2:
-				pols, coqPols = append(pols, req.SameDomainRedirectPolicy()), append(coqPols, "PSameDomain")
-				oraclePols = append(oraclePols, func(t authority, via []authority) bool { return oracleDomain(t) == oracleDomain(via[0]) })
-			case 3:
-				as := append([]authority{init}, targetAuth...)
-				as = as[:rng.Range(1, len(as))]
-				var hs []string
-				for _, a := range as {
-					hs = append(hs, a.render())
-				}
-				pols, coqPols = append(pols, req.AllowedHostRedirectPolicy(hs...)), append(coqPols, "PAllowedHost "+hk.CoqStrList(hs))
-				oraclePols = append(oraclePols, func(t authority, via []authority) bool {
-					for _, a := range as {
-						if oracleHostname(a) == oracleHostname(t) {
-							return true
-						}
-					}
-					return false
-				})
-			case 4:
-				as := append([]authority{init}, targetAuth...)
-				as = as[:rng.Range(1, len(as))]
-				var hs []string
-				for _, a := range as {
-					hs = append(hs, a.render())
-				}
-				pols, coqPols = append(pols, req.AllowedDomainRedirectPolicy(hs...)), append(coqPols, "PAllowedDomain "+hk.CoqStrList(hs))
-				oraclePols = append(oraclePols, func(t authority, via []authority) bool {
-					for _, a := range as {
-						if oracleDomain(a) == oracleDomain(t) {
-							return true
-						}
-					}
-					return false
-				})
-			case 5:
-				var names []string
-				a, ck := rng.Bool(), rng.Bool()
-				if a {
-					names = append(names, hk.Pick(rng, []string{"Authorization", "authorization"}))
-				}
-				if ck {
-					names = append(names, "Cookie")
-				}
-				names = append(names, "X-Unrelated")
-				pols, coqPols = append(pols, req.AlwaysCopyHeaderRedirectPolicy(names...)), append(coqPols, "PAlwaysCopy "+hk.CoqBool(a)+" "+hk.CoqBool(ck))
-			case 6:
-				if rng.Chance(30) {
-					pols, coqPols = append(pols, req.NoRedirectPolicy()), append(coqPols, "PNo")
-					oraclePols = append(oraclePols, func(t authority, via []authority) bool { return false })
-				} else {
-					pols, coqPols = append(pols, nil), append(coqPols, "PNil")
-				}
-			}
-		}
-		id := fmt.Sprintf("c%d", i)
-		mu.Lock()
-		scripts[id] = targets
-		mu.Unlock()
-		c := req.C().SetRedirectPolicy(pols...).SetDial(func(ctx context.Context, network, _ string) (net.Conn, error) {
-			var d net.Dialer
-			return d.DialContext(ctx, network, addr)
-		})
-		rq := c.R().SetHeader("X-Chain", id)
-		credLevel := rng.Intn(3)
-		switch credLevel {
-		case 0: // request level
-			rq.SetHeader("Authorization", "Bearer secret").SetHeader("Cookie", "sid=secret")
-		case 1: // client level
-			c.SetCommonHeader("Authorization", "Bearer secret").SetCommonHeader("Cookie", "sid=secret")
-		case 2: // client-level helpers
-			c.SetCommonBearerAuthToken("secret").SetCommonCookies(&http.Cookie{Name: "sid", Value: "secret"})
-		}
-		r.Count(fmt.Sprintf("chain.credlevel=%d", credLevel))
-		resp, err := rq.Get("http://" + init.render() + "/start")
-		c.GetTransport().CloseIdleConnections()
-		mu.Lock()
-		obs := hits[id]
-		mu.Unlock()
-		refused := err != nil || (resp != nil && resp.StatusCode == 302)
-		// oracle: no host receives a request unless every policy permitted it (evaluated
-		// with the independent host-identity oracle is done in the direct cases; here the
-		// structural part): observed hosts are init followed by a prefix of targets, and a
-		// refusal means strictly fewer than all targets were contacted.
-		okPrefix := len(obs) >= 1 && len(obs) <= len(targets)+1
-		if okPrefix {
-			exp := append([]string{init.render()}, targets...)
-			for k, h := range obs {
-				if strings.TrimSuffix(exp[k], ":") != strings.TrimSuffix(h.Host, ":") {
-					okPrefix = false
-				}
-			}
-		}
-		if !okPrefix {
-			r.Fail(hk.Failure{Sig: "chain:not-prefix", What: "hosts contacted are not the initial host followed by a prefix of the redirect targets",
-				Input: map[string]interface{}{"policies": coqPols, "init": init.render(), "targets": targets}, Got: obs})
-		}
-		if refused && len(obs) == len(targets)+1 && !(len(targets) == 0) {
-			// refused but everything contacted: only legitimate if the final response itself was a 302 without script (cannot happen here)
-			r.Fail(hk.Failure{Sig: "chain:refused-but-all-sent", What: "chain reported refused although every target received a request",
-				Input: map[string]interface{}{"policies": coqPols, "init": init.render(), "targets": targets}, Got: obs})
-		}
-		// oracle for the hop decisions: re-evaluate every hop with the independent
-		// host-identity oracle; the number of requests sent must be 1 + the number of
-		// leading hops every policy permits.
-		{
-			via := []authority{init}
-			wantSent := 1
-			for _, t := range targetAuth {
-				ok := true
-				for _, op := range oraclePols {
-					if !op(t, via) {
-						ok = false
-						break
-					}
-				}
-				if !ok {
-					break
-				}
-				wantSent++
-				via = append(via, t)
-			}
-			if len(obs) != wantSent {
-				r.Fail(hk.Failure{Sig: "chain:hops-followed", What: "number of hops followed differs from what the configured policies permit (every policy must permit each hop)",
-					Input: map[string]interface{}{"policies": coqPols, "init": init.render(), "targets": targets}, Got: len(obs), Want: wantSent})
-			}
-		}
-		// oracle for header carrying (Go's cross-origin rule, sticky): once a hop leaves the
-		// initial host's domain-or-subdomain set, Authorization/Cookie must not be delivered
-		// to it or to any later hop unless AlwaysCopy names that header; never duplicated.
-		{
-			alwaysA, alwaysC := false, false
-			for _, p := range coqPols {
-				if strings.HasPrefix(p, "PAlwaysCopy true") {
-					alwaysA = true
-				}
-				if strings.HasPrefix(p, "PAlwaysCopy") && strings.HasSuffix(p, " true") {
-					alwaysC = true
-				}
-			}
-			ih := urlHostname(init.render())
-			stripped := false
-			for k, h := range obs {
-				if k == 0 {
-					continue
-				}
-				th := urlHostname(targets[k-1])
-				if targets[k-1] != init.render() && !(th == ih || (!strings.ContainsAny(th, ":%") && strings.HasSuffix(th, "."+ih))) {
-					stripped = true
-				}
-				wantA, wantC := 1, 1
-				if stripped && !alwaysA {
-					wantA = 0
-				}
-				if stripped && !alwaysC {
-					wantC = 0
-				}
-				if h.Auth != wantA || h.Cookie != wantC {
-					r.Fail(hk.Failure{Sig: fmt.Sprintf("chain:sensitive-headers:hop%d", k), What: "Authorization/Cookie delivered (or withheld/duplicated) contrary to the cross-origin rule and the AlwaysCopy policy",
-						Input: map[string]interface{}{"policies": coqPols, "init": init.render(), "targets": targets, "hop": k},
-						Got: []int{h.Auth, h.Cookie}, Want: []int{wantA, wantC}})
-					break
-				}
-			}
-		}
-		var coqObs []string
-		for _, h := range obs {
-			coqObs = append(coqObs, hk.CoqPair(hk.CoqStr(h.Host), hk.CoqPair(hk.CoqNat(h.Auth), hk.CoqNat(h.Cookie))))
-		}
-		var cp []string
-		for _, p := range coqPols {
-			cp = append(cp, "("+p+")")
-		}
-		r.Count(fmt.Sprintf("chain.hops=%d", hops))
-		r.Count(fmt.Sprintf("chain.refused=%v", refused))
-		r.Count(fmt.Sprintf("chain.sent=%d", len(obs)))
-		r.Add(hk.Case{Coq: fmt.Sprintf("ChainCase %s %s %s %s %s", hk.CoqList(cp), hk.CoqStr(init.render()), hk.CoqStrList(targets), hk.CoqList(coqObs), hk.CoqBool(refused)),
-			Desc: map[string]interface{}{"kind": "chain", "policies": coqPols, "init": init.render(), "targets": targets, "observed": obs, "refused": refused}},
-			"c|"+strings.Join(coqPols, ",")+"|"+init.render()+"|"+strings.Join(targets, ","), hops >= 2)
-	}
-}
